@@ -6,6 +6,7 @@ pub mod chain;
 pub mod chainstyle;
 pub mod crash;
 pub mod infra;
+pub mod justice;
 pub mod ledger;
 pub mod onchain;
 pub mod roundtrip;
@@ -19,7 +20,55 @@ use world::{Action, Config, World};
 
 pub struct LnSim;
 
-fn run_world(mut wd: World, mut rng: Option<Rng>, trace: Option<Vec<Action>>, seed: u64) -> RunOutcome {
+/// Runs a world; a panic raised by library code outside an action (a read-only query such as
+/// `list_channels` made by the scheduler or the state fingerprint) is a violation like any other
+/// library panic, reported with the trace attempted so far.
+fn run_world(wd: World, rng: Option<Rng>, trace: Option<Vec<Action>>, seed: u64) -> RunOutcome {
+	let profile = wd.cfg.profile.clone();
+	match simcore::runner::catch(|| run_world_inner(wd, rng, trace, seed)) {
+		Ok(o) => o,
+		Err((msg, loc)) => {
+			if !loc.contains("/repo/") {
+				std::panic::panic_any(format!("harness panic at {}: {}", loc, msg));
+			}
+			let (cfg, tr) = world::CURRENT_RUN.with(|c| c.borrow_mut().take()).unwrap_or_else(|| panic!("no current run"));
+			let prop = match profile.as_str() {
+				"offchain" => "C01",
+				"forward" => "C02",
+				"payments" => "C03",
+				"receive" => "C04",
+				"justice" => "C06",
+				"onchain" => "C07",
+				"deadlines" => "C08",
+				"asyncpersist" => "C09",
+				"crash" => "C10",
+				"chainstyle" => "C11",
+				"roundtrip" => "C12",
+				"onionline" => "C14",
+				_ => "C01",
+			};
+			let mut o = RunOutcome::new("lnsim", seed);
+			o.seed = seed;
+			o.steps = tr.len() as u64;
+			o.nontrivial = true;
+			o.violate(
+				prop,
+				&format!("{}-0 panic outside an action", prop),
+				tr.len() as u64,
+				format!("library panicked in a query made between actions: {} at {}", msg, loc),
+			);
+			o.replay = Some(serde_json::json!({
+				"sim": "lnsim",
+				"profile": profile,
+				"config": serde_json::to_value(&cfg).unwrap(),
+				"trace": serde_json::to_value(&tr).unwrap(),
+			}));
+			o
+		},
+	}
+}
+
+fn run_world_inner(mut wd: World, mut rng: Option<Rng>, trace: Option<Vec<Action>>, seed: u64) -> RunOutcome {
 	wd.out.seed = seed;
 	wd.setup();
 	match trace {
@@ -52,7 +101,18 @@ fn run_world(mut wd: World, mut rng: Option<Rng>, trace: Option<Vec<Action>>, se
 				wd.apply(&Action::Settle);
 			}
 			if !wd.dead && !wd.strict_offchain {
-				wd.apply(&Action::Liquidate);
+				if wd.cfg.profile == "justice" {
+					if let Some(a) = sched::gen_cheat(&wd, &mut sched) {
+						wd.apply(&a);
+					}
+				}
+				if !wd.dead && matches!(wd.cfg.profile.as_str(), "justice" | "onchain") {
+					let a = sched::gen_liq_plan(&wd, &mut sched);
+					wd.apply(&a);
+				}
+				if !wd.dead {
+					wd.apply(&Action::Liquidate);
+				}
 			}
 		},
 	}
@@ -60,6 +120,7 @@ fn run_world(mut wd: World, mut rng: Option<Rng>, trace: Option<Vec<Action>>, se
 		wd.final_oracles();
 		if wd.trace.last() == Some(&Action::Liquidate) {
 			wd.wealth_oracle(&[]);
+			wd.justice_oracle();
 		}
 		if wd.cfg.profile == "roundtrip" {
 			for n in 0..wd.nodes.len() {
@@ -71,6 +132,9 @@ fn run_world(mut wd: World, mut rng: Option<Rng>, trace: Option<Vec<Action>>, se
 		+ wd.out.counters.get("event:PaymentFailed").copied().unwrap_or(0)
 		+ wd.out.counters.iter().filter(|(k, _)| k.starts_with("fault:")).map(|(_, v)| *v).sum::<u64>();
 	wd.out.nontrivial = progressed > 0;
+	if wd.cfg.profile == "justice" {
+		wd.out.nontrivial = wd.out.counters.get("fault:revoked_commitment_confirmed").copied().unwrap_or(0) > 0;
+	}
 	wd.finish()
 }
 
